@@ -33,7 +33,8 @@ theorem gen_param_elem : Gen.C03.paramGroupExpr = "strs[0]" ∧ Gen.C03.paramNam
     Gen.C03.paramInitDefaults = ["self.extended = False", "self.ident = ident", "self.persistent = False"] := by decide
 theorem gen_ext : Gen.C03.extIdArgs = ["pk.data[1:3]"] ∧ Gen.C03.extRunArgs = ["pk.data[1:3]"] ∧
     Gen.C03.extRunFmt = Gen.C03.extIdFmt ∧ Gen.C03.extTypeExpr = "pk.data[3]" ∧
-    Gen.C03.extCbCompares = ["pk.channel == MISC_CHANNEL", "self._req_param == var_id",
+    Gen.C03.extCbGuard = "pk.channel == MISC_CHANNEL and pk.data[0] == MISC_GET_EXTENDED_TYPE" ∧
+    Gen.C03.extCbCompares = ["pk.channel == MISC_CHANNEL", "pk.data[0] == MISC_GET_EXTENDED_TYPE", "self._req_param == var_id",
       "extended_type == ParamTocElement.EXTENDED_PERSISTENT", "self._count == 0", "self._done_callback is not None"] ∧
     Gen.C03.extCbAug = ["self._count -= 1"] ∧
     Gen.C03.extCbMark = ["self._toc.get_element_by_id(var_id).mark_persistent()"] ∧
@@ -300,9 +301,16 @@ theorem cache_hit_installs (dec : Nat → Bytes → Except PyErr Elem) (d : Dev)
 
 /-! ## Persistence markers -/
 
+/-- fix D29: a misc-channel packet that is not an extended-type answer - in particular the unsolicited
+value-updated notification `01 id16 value` for the very parameter whose answer is awaited - leaves the fetcher
+unchanged (or raises IndexError when empty, which the dispatcher swallows) -/
+theorem notification_ignored_by_ext_fetcher (x : ExtF) (data : Bytes) (h : data.head? ≠ some 2) :
+    x.onPacket 3 data = .ok x ∨ ∃ e, x.onPacket 3 data = .error e := xonPacket_notext x data h
+
 /-- **persistent_marks_eq_device.**  `refresh_done` queries exactly the extended parameters; under EVERY
-schedule of worker iterations, (re-)deliveries of any extended-type reply generated so far and packets on
-other channels, the done callback (-> `connected`) runs at most once, and when it has run the table is the
+schedule of worker iterations, (re-)deliveries of any extended-type reply generated so far, packets on other
+channels, ANY other misc-channel packets (`XChoice.misc`: value-updated notifications for awaited and other
+parameters, other misc replies, empty packets) and a disconnect at any point, the done callback (-> `connected`) runs at most once, and when it has run the table is the
 downloaded one with `persistent` set on exactly the extended parameters the device reports as persistent
 (group, name, index, type, access unchanged). -/
 theorem persistent_marks_eq_device (toc0 : Toc) (hnd : (toc0.elems.map (·.ident)).Nodup)
@@ -530,6 +538,11 @@ theorem ext_disconnect_aborts (pers : Nat → Bool) (s : XSys) (ha : s.x.active 
       simp only [XSys.step]
       have : t.x.worker = none := by unfold ExtF.worker; rw [htq]
       rw [this]
+    | misc data =>
+      simp only [XSys.step]
+      split
+      · rfl
+      · unfold XSys.deliver; rw [xonPacket_inactive t.x 3 data hta]
     | disconnect =>
       simp only [XSys.step]
       have : t.x.disconnect = t.x := by simp [ExtF.disconnect, hta]
@@ -606,10 +619,12 @@ example : (Sys.init exDev).map (fun s0 =>
 /-- an empty table finishes on the info reply alone -/
 example : (Sys.init ⟨false, [], 7, []⟩).map (fun s0 => (Sys.run decodeLog ⟨false, [], 7, []⟩ s0 [.reply 0]).f.st) = some .done := by
   decide
-/-- two extended parameters (idents 0 and 2), the device says only 2 is persistent; stale reply re-delivered -/
+/-- two extended parameters (idents 0 and 2), the device says only 2 is persistent; stale reply re-delivered;
+value-updated notifications for the awaited parameters (value bytes 1 and 0) arrive while their answers are awaited -/
 def exToc : Toc := tocOf [specParam 0 ⟨0x18, [0x61], [0x62]⟩, specParam 1 ⟨0x08, [0x61], [0x63]⟩, specParam 2 ⟨0x58, [0x64], [0x62]⟩]
 example : ((refreshDone exToc).toOption.bind id).map (fun x0 =>
-    let s := XSys.run (· == 2) ⟨x0, [], []⟩ [.worker, .worker, .reply 0, .reply 0, .worker, .reply 0, .reply 1, .reply 1]
+    let s := XSys.run (· == 2) ⟨x0, [], []⟩ [.worker, .misc [1, 0, 0, 1], .worker, .reply 0, .reply 0, .worker, .misc [1, 2, 0, 0],
+      .misc [], .reply 0, .reply 1, .reply 1]
     (s.x.done, s.x.toc.elems.map (·.persistent))) = some (1, [false, false, true]) := by decide
 /-- D21, the unrepaired behaviour for comparison: a fetcher whose download was interrupted but which was NOT
 disconnected still answers the info reply of the next session - the item request goes out twice; after
